@@ -1067,9 +1067,22 @@ type c12Set struct {
 	source   dials.Source
 }
 
+// c12CfgMode: how the next name config is obtained (set per case): 0 a literal NameConfig, 1 DefaultFlagNameConfig()
+// as returned (default encoders only), 2 the usual way to customise: take DefaultFlagNameConfig() and overwrite its
+// fields - which must not change what a later DefaultFlagNameConfig() means
+var c12CfgMode int
+
 func c12NewSet(pk string, ne, te cc.EncodeCasingFunc, tmpl any, args []string) (*c12Set, error) {
 	if pk == "std" {
-		s, err := dflag.NewSetWithArgs(&dflag.NameConfig{FieldNameEncodeCasing: ne, TagEncodeCasing: te}, tmpl, args)
+		ncfg := &dflag.NameConfig{FieldNameEncodeCasing: ne, TagEncodeCasing: te}
+		switch c12CfgMode {
+		case 1:
+			ncfg = dflag.DefaultFlagNameConfig()
+		case 2:
+			ncfg = dflag.DefaultFlagNameConfig()
+			ncfg.FieldNameEncodeCasing, ncfg.TagEncodeCasing = ne, te
+		}
+		s, err := dflag.NewSetWithArgs(ncfg, tmpl, args)
 		if err != nil {
 			return nil, err
 		}
@@ -1080,7 +1093,15 @@ func c12NewSet(pk string, ne, te cc.EncodeCasingFunc, tmpl any, args []string) (
 			source:   s,
 		}, nil
 	}
-	s, err := dpflag.NewSetWithArgs(&dpflag.NameConfig{FieldNameEncodeCasing: ne, TagEncodeCasing: te}, tmpl, args)
+	pcfg := &dpflag.NameConfig{FieldNameEncodeCasing: ne, TagEncodeCasing: te}
+	switch c12CfgMode {
+	case 1:
+		pcfg = dpflag.DefaultFlagNameConfig()
+	case 2:
+		pcfg = dpflag.DefaultFlagNameConfig()
+		pcfg.FieldNameEncodeCasing, pcfg.TagEncodeCasing = ne, te
+	}
+	s, err := dpflag.NewSetWithArgs(pcfg, tmpl, args)
 	if err != nil {
 		return nil, err
 	}
@@ -1117,8 +1138,10 @@ func c12Case(c *Ctx, r *RNG, res *Result, pk string, idx int) {
 	useCorpus := r.Chance(12)
 	dups := !useCorpus && r.Chance(5)
 	neIdx, teIdx := 0, 4
+	c12CfgMode = []int{0, 1, 1}[r.Intn(3)] // default encoders: mostly through DefaultFlagNameConfig()
 	if r.Chance(50) {
 		neIdx, teIdx = []int{0, 1, 3, 5}[r.Intn(4)], r.Intn(6)
+		c12CfgMode = []int{0, 2}[r.Intn(2)] // custom encoders: a literal, or the default config with its fields overwritten
 		if r.Chance(8) {
 			neIdx = []int{2, 4}[r.Intn(2)] // lower snake / kebab field names: reflect.StructOf rejects them
 		}
